@@ -395,7 +395,7 @@ class DeserializationMethodVisitor(
                 value_map,
                 preformat_error(settings.errors.one_of, list(value_map)),
                 self.coercer,
-                tuple(set(map(type, value_map))),
+                tuple(dict.fromkeys(map(type, value_map))),
             )
 
         return self._factory(factory)
